@@ -107,7 +107,7 @@ def run(seed, tier, lean) -> Result:
                       'after regenerating the language graph, building the classes and two attack graphs; answers compared with an '
                       'independent root-down fold and with the Lean model, the specification with a snapshot, and object identity of every '
                       'list/dict in the answers against the specification; non-trivial = a chain of depth >= 3 with a step redefined at >= 2 levels')
-    n = 400 if tier == 'quick' else 20000
+    n = 400 if tier == 'quick' else 2400
     cases = []
     for i in range(n):
         r = random.Random(rnd.getrandbits(48))
